@@ -5,17 +5,32 @@ README - the public API workloads may rely on
 
 Running
 -------
-    from sim import SimCluster, Fault, run, SimTimeout, SimBug, leftover_empty
+    from sim import SimCluster, Fault, random_faults, run, now_ms, leftover_empty, SimTimeout, SimBug
     cluster = SimCluster(nodes=2, topics={"t": 3}, seed=7)
-    result  = run(main(), cluster, max_vt=600.0)      # main() uses AIOKafkaProducer(bootstrap_servers="b0:9092") ...
-    cluster.trace, cluster.leftover                   # event list, leftover report of that run
+    result  = run(main(cluster), cluster, max_vt=600.0)   # main uses AIOKafkaProducer(bootstrap_servers="b0:9092,b1:9092") ...
+    cluster.trace            # the event list
+    cluster.leftover         # {"tasks": [...], "timers": [...], "transports": [...], "errors": [...]}
+                             # taken right after main() finished;  leftover_empty(cluster.leftover) -> bool
 
-``run(coro, cluster, *, max_vt=3600.0, grace=120.0)`` creates a ``VLoop`` bound to the cluster,
-patches ``time.monotonic``/``time.time``, seeds the global ``random`` module (aiokafka uses it to pick
-nodes) from ``cluster.seed``, runs ``coro`` and returns its result.  ``SimTimeout`` = virtual time
-passed ``max_vt`` (a hang), ``SimBug`` = the simulator failed.  A cluster may be ``run`` several times;
-its clock, logs, groups and timers carry over.  For bit-identical traces across *processes* also fix
-``PYTHONHASHSEED`` (aiokafka iterates over sets of strings).
+``run(coro, cluster, *, max_vt=3600.0, grace=120.0)`` creates a ``VLoop`` bound to the cluster, patches
+``time.monotonic`` / ``time.time`` (= 1_600_000_000 + virtual seconds), seeds the global ``random`` module
+(aiokafka picks nodes with it) from ``cluster.seed``, runs ``coro`` and returns its result.
+  * ``SimTimeout``: virtual time passed ``max_vt`` (relative to the start of this run) and ``coro`` was not
+    done - a hang.  ``exc.where`` / the message name the await chain it was stuck in; ``cluster.leftover``
+    lists the tasks still alive with the line they wait at.
+  * ``SimBug`` (``SimDeadlock``): the simulator failed (exception in a broker callback, reply the client
+    could not decode, undecodable request, livelock of the loop, ...).  Never a finding about aiokafka.
+  * A cluster may be ``run`` several times: clock, logs, groups, transactions and timers carry over,
+    connections do not.
+Determinism: same seed + same workload => same trace, provided (1) ``PYTHONHASHSEED`` is fixed (aiokafka
+iterates over sets of strings; ``sim.selftest`` re-executes itself with ``PYTHONHASHSEED=0``) and (2) the
+workload passes ``timestamp_ms=now_ms()`` (or any explicit value) to ``producer.send``: the compiled record
+builder stamps records with C ``gettimeofday()``, which no Python patch reaches.
+Virtual clock: values lie on a 2**-20 s grid; when the only thing left to do is a zero-length timer
+(``wait(timeout=0)``) one tick passes, because library code such as ``if now > deadline`` relies on real
+clocks moving.  The broker handles one request per connection at a time (Kafka mutes a channel while a
+request is in flight): a parked JoinGroup or a long-polling Fetch delays whatever is queued behind it on
+the same connection, exactly as with a real broker.
 
 Constructor
 -----------
@@ -23,72 +38,102 @@ Constructor
              jitter=0.0, default_partitions=1)``
   node ``i`` listens on ``("b{i}", 9092)``; partition ``p`` of a topic is led by node ``p % nodes``
   (topics created later continue round-robin).  ``api_versions={api_key_or_name: (min, max)}``
-  overrides the advertised ranges (default: Kafka 2.x clamped to what aiokafka has classes for).
-  ``jitter`` > 0 adds ``rng.random()*jitter`` seconds to every one-way latency (default 1 ms).
+  overrides the advertised ranges (default: Kafka 2.x clamped to what aiokafka has classes for:
+  Produce 0-8, Fetch 0-11, ListOffsets 0-5, Metadata 0-5, OffsetCommit 0-3, OffsetFetch 0-3,
+  FindCoordinator 0-1, JoinGroup 0-5, Heartbeat 0-1, LeaveGroup 0-1, SyncGroup 0-3, ApiVersions 0-2,
+  InitProducerId / AddPartitionsToTxn / AddOffsetsToTxn / EndTxn / TxnOffsetCommit 0).
+  ``jitter`` > 0 adds ``rng.random()*jitter`` seconds to every one-way latency (default 1 ms) so that
+  replies of different brokers arrive in seed-dependent order.
 
 Tunables (plain attributes)
 ---------------------------
-  ``connect_delay=0.001``  ``txn_completion_delay=0.0``  ``group_initial_rebalance_delay=0.0``
-  ``coordinator_load_time=0.0`` (COORDINATOR_LOAD_IN_PROGRESS window after a stateless move)
-  ``enforce_txn_timeout=False``  ``paranoid=False`` (re-decode every reply / stored batch)
-  ``trace_enabled=True``  ``topic_config[name]["log_append_time"]=True``
-  ``latency(node_id, rng) -> seconds`` and ``fetch_cut(tp, n_available, rng) -> 1..n`` may be
-  replaced by assignment (``cluster.fetch_cut = lambda tp, n, rng: n``).
+  ``connect_delay=0.001``  ``base_latency=0.001``  ``txn_completion_delay=0.0``
+  ``group_initial_rebalance_delay=0.0``  ``coordinator_load_time=0.0`` (COORDINATOR_LOAD_IN_PROGRESS
+  window after a stateless coordinator move)  ``enforce_txn_timeout=False``
+  ``paranoid=False`` (re-decode every reply and every stored batch)  ``trace_enabled=True``
+  ``topic_config[name] = {"log_append_time": True}``
+  ``latency(node_id, rng) -> seconds`` and ``fetch_cut(tp, n_available, rng) -> 1..n`` may be replaced by
+  assignment (``cluster.fetch_cut = lambda tp, n, rng: n``).
 
 Topology / environment steps (call them from the workload or from a ``Fault(kind="call")``)
 --------------------------------------------------------------------------------------------
   ``add_topic(name, n)``  ``add_partitions(name, n_total)``  ``set_leader(tp, node_or_-1)``
   ``kill_node(i, migrate_leaders=False)``  ``revive_node(i)``  ``stale_metadata(n)``
-  ``coordinator_for(kind, key) -> node id``   (kind = "group" | "txn")
+  ``coordinator_for(kind, key) -> node id``   (kind = "group" | "txn"; default node 0)
   ``move_coordinator(kind, key, node, keep_state=True)``
   ``deny_topic(t)  deny_group(g)  deny_txn_id(x)``  (``allow_*`` undo them)
   ``delete_records(tp, before_offset)``   (moves log_start: provokes OFFSET_OUT_OF_RANGE)
-  ``abort_client(client_id)``             (broker side closes all connections of that client)
-  ``endpoint(host, port) -> SimNode | None``,  ``now() -> virtual seconds``
+  ``abort_client(client_id)``             (broker side closes all connections of that client; to "kill a
+                                           member" also cancel its tasks in the workload)
+  ``endpoint(host, port) -> SimNode | None``,  ``now() -> virtual seconds``,  ``leaders()``
   ``tp`` is always a ``(topic, partition)`` tuple (an aiokafka ``TopicPartition`` is accepted too).
+  A dead node disappears from Metadata; partitions it leads are reported leader=-1 / LEADER_NOT_AVAILABLE
+  until ``set_leader`` (or ``migrate_leaders=True``) moves them.  Logs are cluster-wide: no data is lost.
 
 Faults  (``from sim import Fault, random_faults``; full description in faults.py)
 --------------------------------------------------------------------------------
-  ``cluster.faults.add(Fault(kind, api=None, node=None, nth=None, client=None, count=1,
+  ``cluster.faults.add(Fault(kind, *, api=None, node=None, nth=None, client=None, count=1,
                              code=None, tp=None, seconds=None, fn=None, label=None))``
-  kind in ``drop_before | drop_after | lose_reply | error | delay | call``.
-  ``random_faults(rng, p, kinds, apis, horizon=200, codes=None, seconds=(0.05, 2.0)) -> [Fault]``.
+  kind in ``drop_before | drop_after | lose_reply | error | delay | call``;  ``api`` = key or name;
+  ``nth`` = 0-based ordinal among the requests matching (api, node, client[, tp]);  ``count=None`` = for ever.
+  ``call``: ``fn(cluster, rq)`` runs before the request is handled (``rq.api, rq.client, rq.node.id, rq.req``).
+  ``random_faults(rng, p, kinds, apis, *, horizon=200, codes=None, seconds=(0.05, 2.0)) -> [Fault]``
+  (add them with ``cluster.faults.extend(...)``).
 
 Ground truth
 ------------
-  ``log(tp) -> PartitionLog``  (``.batches .log_start .leo .hw .lso() .aborted_index .producers
+  ``log(tp) -> PartitionLog``  (``.batches .log_start .leo .hw .lso() .aborted_index .open_txns .producers
                                 .seed_producer(pid, epoch, last_seq)``, see log.py)
   ``read_committed(tp)`` / ``read_uncommitted(tp)`` -> ``[(offset, key, value, ts, headers)]``
   ``committed(group) -> {(topic, partition): offset}``
-  ``group(group) -> snapshot dict`` (state, generation, leader, members, committed, history[...])
+  ``group(group) -> dict``: state, generation, protocol, leader, members{id: {client, protocols,
+      assignment (hex), assigned [(topic, partition)]}}, pending_members, committed,
+      pending_txn_offsets, history [{generation, vt, protocol, leader, members, assignments, assigned}]
   ``txn_state() -> {txid: {pid, epoch, state, partitions, groups}}``
-  ``leaders() -> {(topic, partition): node id}``
 
 Trace  (``cluster.trace``: list of dicts in program order; every dict has ``vt`` (virtual ms, int) and ``ev``)
 ---------------------------------------------------------------------------------------------------------
-  ``connect``   client, node, conn
-  ``conn_lost`` client, node, conn, by  (``client | drop_before | drop_after | kill | abort``)
+  ``connect``   client, node, conn                      (written when the first request reveals the client id)
+  ``conn_lost`` client, node, conn, by  (``client | drop_before | drop_after | kill | abort``; once per connection)
   ``request``   client, node, conn, corr, api (name), version, fields
-  ``reply``     client, node, conn, corr, api, version, fields | fault (``drop_after`` /
-                ``lose_reply``: no reply was sent) | undelivered=True (connection already gone);
-                an acks=0 Produce has no reply event
-  ``apply``     node, tp, pid, epoch, seq, n, outcome (``append | duplicate | error |
-                commit_marker | abort_marker``), error (code), base_offset, client, corr
-  ``txn``       txid, op, outcome, pid, epoch, ...            (txn.py)
-  ``group``     group, op, member, generation, outcome, ...  (group.py)
+  ``reply``     client, node, conn, corr, api, version, fields  [+ fault=``drop_after|lose_reply`` (applied,
+                nothing sent) | undelivered=True (connection already gone)]; acks=0 Produce: no reply event
+  ``apply``     node, tp, pid, epoch, seq, n, outcome (``append | duplicate | error | commit_marker |
+                abort_marker``), error (code), base_offset, client, corr
+  ``txn``       txid, op (``init | add_partitions | add_offsets | end | fence_abort | timeout_abort |
+                complete``), outcome (error code / state), pid, epoch, ...            (txn.py)
+  ``group``     group, op (``join | sync | heartbeat | leave | commit | fetch_offsets | txn_commit |
+                txn_offsets_commit | txn_offsets_abort | prepare_rebalance | generation | stable | expire |
+                evict | expire_pending | reset``), member, generation, outcome (error code, ``"parked"`` =
+                reply withheld), ...                                              (group.py)
   ``metadata``  node, client, stale, leaders=[[topic, partition, leader], ...]
-  ``fault``     the fired fault (its ``describe()`` dict) + client, node, corr, api
+  ``fault``     the fired fault (kind, api, nth, code, ...) + client, node, conn, corr
   ``env``       op (``set_leader | kill_node | revive_node | add_topic | add_partitions |
                 move_coordinator | stale_metadata | delete_records | deny | allow``) + arguments
   ``fields`` of requests / replies are the library's decoded struct rendered by schema field names
   (bytes as hex), except the two bulky ones:
-    Produce request  ``{acks, timeout, txid, partitions: [{topic, partition, magic, pid, epoch,
-                       base_seq, is_txn, n, records: [latin-1 str], keys: [...], timestamps: [...]}]}``
+    Produce request  ``{acks, timeout, txid, partitions: [{topic, partition, magic, pid, epoch, base_seq,
+                       is_txn, n, nbatches, records: [latin-1 str], keys: [...], timestamps: [...]}]}``
     Produce reply    ``{partitions: [{topic, partition, error, offset, timestamp, log_start}]}``
     Fetch request    ``{max_wait, min_bytes, max_bytes, isolation, partitions: [{topic, partition,
                        offset, max_bytes}]}``
     Fetch reply      ``{partitions: [{topic, partition, error, hw, lso, log_start, aborted:
                        [[pid, first_offset]], batches: [[base_offset, last_offset]], nbytes}]}``
+
+Broker semantics where SPEC.md / Appendix F left a choice (all follow Kafka 2.x)
+-------------------------------------------------------------------------------
+  * OffsetCommit from a known member of the current generation is accepted in Stable *and*
+    PreparingRebalance (that is what makes "commit before rejoin" work), refused with 27 only in
+    CompletingRebalance;  generation -1 + empty member id is always accepted.
+  * Heartbeat answers 27 in PreparingRebalance and CompletingRebalance (and refreshes the session).
+  * A member re-joining with unchanged metadata gets the current generation again (followers in Stable,
+    anyone in CompletingRebalance); changed metadata, or the leader re-joining in Stable, starts a rebalance.
+  * Session expiry is suspended while the member's JoinGroup / SyncGroup is parked.
+  * EndTxn repeated after it was applied (same result) succeeds; EndTxn with nothing ongoing otherwise -> 48.
+  * InitProducerId on an id with an ongoing transaction: epoch+1, abort markers, (51 while completing), epoch+1.
+  * Markers are written at the instant EndTxn is applied, whatever the state of the partition leaders.
+  * Legacy (magic 0/1) produce payloads are up-converted to one v2 batch; fetches are never down-converted.
+  * Static membership (group_instance_id) is ignored.
 """
 
 from __future__ import annotations
@@ -329,6 +374,8 @@ class SimCluster:
                 if conn.current is not None:
                     conn.current.done = True
             node.conns = []
+        for conn in list(loop.transports):
+            conn.detach()
         for t in self._timers.values():
             if t.handle is not None:
                 t.handle.cancel()
@@ -550,7 +597,10 @@ class SimCluster:
             conn.node.conns.remove(conn)
         except ValueError:
             pass
-        self._ev("conn_lost", client=conn.client_id, node=conn.node.id, conn=conn.cid, by=by)
+        if not conn.lost_traced:
+            # one event per connection, naming whoever closed first
+            conn.lost_traced = True
+            self._ev("conn_lost", client=conn.client_id, node=conn.node.id, conn=conn.cid, by=by)
 
     def _frame_sent(self, conn, frame):
         loop = self.loop
